@@ -420,7 +420,9 @@ From Cij Require Import Ops FOps StaticModel.
 Import ListNotations.
 Local Open Scope float_scope.
 
-Definition tol6 := close 0x1.0c6f7a0b5ed8dp-20 0x1.0c6f7a0b5ed8dp-19.   (* rtol 1e-6, atol 2e-6 *)
+(* rtol 1e-6, atol 2e-6; a printed NaN (velocity of a negative modulus) must be NaN in the model *)
+Definition tol6 (a b : float) : bool :=
+  if is_nan b then is_nan a else close 0x1.0c6f7a0b5ed8dp-20 0x1.0c6f7a0b5ed8dp-19 a b.
 (* one invocation: model table vs printed table; in mode none additionally P vs the exact derivative of
    the fit within the harness-computed tolerance (GPa) *)
 Definition chk (mode : nat) (vols ens spl : list float) (ratio pmin dp : float) (ntv step : nat)
@@ -456,8 +458,13 @@ def coq_case(c, df):
             flist(el["volumes"]), "; ".join("(%s, %s)%%nat" % (k[0], k[1]) for k in el["keys"]),
             flist2([[row[kk] for row in el["rows"]] for kk in range(len(el["keys"]))]), fhex(el["cellmass"]))
         if c["system"]:
+            # one entry per UNSAMPLED row (the model samples last, like the code); rows that are not printed
+            # get the previous printed row's values - they are dropped by the stride
             fl = []
-            for r in range(len(df)):
+            by_label = {int(lab): r for r, lab in enumerate(df.index)}
+            nrows = max(by_label) + 1
+            for lab in range(nrows):
+                r = by_label.get(lab, r if lab else 0)
                 fl.append([df["c%d%d" % p].iloc[r] if "c%d%d" % p in df.columns else 0.0 for p in ALL_PAIRS])
             fills = "(Some %s)" % flist2(fl)
     missing = [x for x in cols if x not in df.columns]
